@@ -633,7 +633,7 @@ func (i *Snapshot) readSegmentSnapshot(br *bufio.Reader) (bytesRead int64, ss *s
 
 	// read ver
 	verBuf := make([]byte, 4)
-	sz, err = br.Read(verBuf)
+	sz, err = io.ReadFull(br, verBuf)
 	if err != nil {
 		return bytesRead, nil, fmt.Errorf("error reading snapshot %d: %w", i.epoch, err)
 	}
@@ -705,7 +705,7 @@ func readVarLenString(r *bufio.Reader) (n int, str string, err error) {
 	n += sz
 
 	strBytes := make([]byte, strLen)
-	sz, err = r.Read(strBytes)
+	sz, err = io.ReadFull(r, strBytes)
 	if err != nil {
 		return n, "", err
 	}
